@@ -8,6 +8,8 @@
 From PJ Require Import Base.Prelude Crit.CritPath Crit.CritPathProofs Crit.CritNetProofs
   Crit.CritWbsProofs Crit.CritScaleProofs Crit.CritCheck Crit.CritCheckProofs
   Crit.CritUnrepaired Crit.CritUnrepairedProofs.
+From Coq Require Import Permutation.
+From PJ Require Import Crit.CritOrder Crit.CritOrderProofs Crit.CritOrderTopoProofs.
 Open Scope Z_scope.
 
 (* ef i is the length of the longest dependency chain that ends in leaf i: no chain is longer, one
@@ -120,6 +122,91 @@ Example C12_example :
   /\ check_case (b, order, dag_of b order, 0%nat, [4]%nat) = 2%nat.
 Proof. vm_compute. repeat split. Qed.
 
+(* ---- Session 3: the order of the leaves is immaterial, and an acyclic WBS has one ---- *)
+
+(* the call on a WBS in terms of TASKS only (no positions): t is returned iff it is a listed leaf and
+   the longest chain of effective-predecessor edges through t (longest chain ending in t + longest
+   chain starting in t, t counted once) is as long as the longest chain of the whole network *)
+Theorem C12_tasks : forall b order t, wf (dag_of b order) -> NoDup order ->
+  (In t (critical_tasks b order) <-> tcritical b order t).
+Proof. exact critical_tasks_tcritical. Qed.
+
+(* two topological orders of the same leaves give the same SET of critical tasks *)
+Theorem C12_order_independent : forall b order1 order2,
+  NoDup order1 -> Permutation order1 order2 ->
+  wf (dag_of b order1) -> wf (dag_of b order2) ->
+  forall t, In t (critical_tasks b order1) <-> In t (critical_tasks b order2).
+Proof. exact order_independent. Qed.
+
+Theorem C12_order_independent_sets : forall b order1 order2,
+  NoDup order1 -> NoDup order2 -> (forall t, In t order1 <-> In t order2) ->
+  wf (dag_of b order1) -> wf (dag_of b order2) ->
+  forall t, In t (critical_tasks b order1) <-> In t (critical_tasks b order2).
+Proof. exact order_independent_sets. Qed.
+
+(* the boolean the checker evaluates on the order of every case: it lists every leaf exactly once *)
+Theorem C12_order_ok : forall b order, order_ok b order = true <-> enumerates_leaves b order.
+Proof. exact order_ok_spec. Qed.
+
+(* Kahn's topological sort of the leaves (fuel = number of leaves + 1) is sound ... *)
+Theorem C12_topo_sound : forall b o, topo_sort b = Some o ->
+  enumerates_leaves b o /\ wf (dag_of b o).
+Proof. exact topo_sort_sound. Qed.
+
+(* ... and complete: it succeeds on every WBS whose effective-predecessor relation has no cycle
+   ([acyclic b]: no task reaches itself through eff_preds edges), and only on those *)
+Theorem C12_topo_complete : forall b, acyclic b -> exists o, topo_sort b = Some o.
+Proof. exact topo_sort_complete. Qed.
+
+Theorem C12_topo_none_cyclic : forall b, topo_sort b = None <-> ~ acyclic b.
+Proof. exact topo_sort_none_iff. Qed.
+
+(* "acyclic" is exactly "the leaves can be listed in a topological order" (the precondition wf of
+   the theorems above is satisfiable precisely on the property's domain) *)
+Theorem C12_acyclic_iff_order : forall b,
+  acyclic b <-> exists order, enumerates_leaves b order /\ wf (dag_of b order).
+Proof. exact acyclic_iff_order. Qed.
+
+(* C12 with no order supplied from outside: on an acyclic WBS the call is defined, returns exactly
+   the leaves that lie on a longest chain of the network of all leaves, and any topological
+   enumeration of the leaves gives the same set *)
+Theorem C12_wbs_any_order : forall b, acyclic b ->
+  exists crit, critical_of b = Some crit
+    /\ (forall t, In t crit <-> tcritical b (leaves b) t)
+    /\ forall order, enumerates_leaves b order -> wf (dag_of b order) ->
+       forall t, In t (critical_tasks b order) <-> In t crit.
+Proof. exact wbs_any_order. Qed.
+
+Theorem C12_any_order_nonempty : forall b crit,
+  critical_of b = Some crit -> leaves b <> [] -> crit <> [].
+Proof. exact critical_of_nonempty. Qed.
+
+(* non-vacuity: the WBS of C12_example listed in two different topological orders - the lists differ,
+   the sets agree; topo_sort finds a third order.  A cycle that closes through the hierarchy (A is a
+   child of P, B waits for A, P waits for B - the setters of the library accept it, the repaired
+   critical_path() raises KeyError): the sort reports it. *)
+Example C12_order_example :
+  let T p ps e := {| wparent := p; wpreds := ps; winside := true; west := e; wspent := None |} in
+  let b := [ T None [] None; T (Some 0%nat) [] (Some 1); T (Some 0%nat) [1%nat] (Some 2);
+             T None [0%nat] None; T (Some 3%nat) [] (Some 7); T None [7%nat] (Some 10);
+             T (Some 3%nat) [] (Some 0);
+             {| wparent := None; wpreds := []; winside := false; west := Some 100; wspent := None |} ] in
+  let order1 := [1; 2; 4; 6; 5]%nat in
+  let order2 := [5; 1; 2; 6; 4]%nat in
+  let cyc := [ T None [2%nat] None; T (Some 0%nat) [] (Some 1); T None [1%nat] (Some 2) ] in
+  order_ok b order1 = true /\ order_ok b order2 = true
+  /\ wf_b (dag_of b order1) = true /\ wf_b (dag_of b order2) = true
+  /\ list_eqb Nat.eqb order1 order2 = false
+  /\ critical_tasks b order1 = [1; 2; 4; 5]%nat
+  /\ critical_tasks b order2 = [5; 1; 2; 4]%nat
+  /\ topo_sort b = Some [1; 2; 4; 5; 6]%nat
+  /\ critical_of b = Some [1; 2; 4; 5]%nat
+  /\ wf_b (dag_of b [2; 1; 4; 6; 5]%nat) = false
+  /\ parents_first_b cyc = true /\ leaves cyc = [1; 2]%nat
+  /\ eff_preds cyc 1 = [2%nat] /\ eff_preds cyc 2 = [1%nat]
+  /\ topo_sort cyc = None /\ critical_of cyc = None.
+Proof. vm_compute. repeat split. Qed.
+
 Print Assumptions C12_dp_ef.
 Print Assumptions C12_dp_tail.
 Print Assumptions C12_length.
@@ -136,3 +223,14 @@ Print Assumptions C12_check_case.
 Print Assumptions C12_exact_refuted_binary64.
 Print Assumptions C12_summary_refuted_unexpanded.
 Print Assumptions C12_example.
+Print Assumptions C12_tasks.
+Print Assumptions C12_order_independent.
+Print Assumptions C12_order_independent_sets.
+Print Assumptions C12_order_ok.
+Print Assumptions C12_topo_sound.
+Print Assumptions C12_topo_complete.
+Print Assumptions C12_topo_none_cyclic.
+Print Assumptions C12_acyclic_iff_order.
+Print Assumptions C12_wbs_any_order.
+Print Assumptions C12_any_order_nonempty.
+Print Assumptions C12_order_example.
